@@ -118,11 +118,22 @@ def BlockFact (env : Env) (cfg : Cfg) (now : Int) (lastHost : List Block) (prev 
     (i : Nat) : Prop :=
   b.prevHash = SL.prevHashOpt env prev ∧
   ∀ p, prev = some p →
-    (∃ x, lastHost[i]? = some x ∧ env.hash b = env.hash x) ∨ (BlockStep cfg p b ∧ b.ts ≤ now)
+    (∃ x, lastHost[i]? = some x ∧ env.hash b = env.hash x) ∨ (BlockStep cfg p b ∧ b.ts ≤ now ∧ b.ts ≠ 0)
 
 def loopFacts (env : Env) (cfg : Cfg) (now : Int) (lastHost : List Block) : Option Block → List Block → Nat → Prop
   | _, [], _ => True
   | prev, b :: rest, i => BlockFact env cfg now lastHost prev b i ∧ loopFacts env cfg now lastHost (some b) rest (i + 1)
+
+/-- the zero-timestamp guard of `verifyBlock` (fix: commit) -/
+theorem verifyBlock_ts_ne_zero {env : Env} {cfg : Cfg} {l : Ledger} {b : Block} {prevTs now : Int}
+    (h : Ledger.verifyBlock env cfg l b prevTs now = .ok ()) : b.ts ≠ 0 := by
+  unfold Ledger.verifyBlock at h
+  by_cases c1 : b.ts ≠ prevTs + cfg.interval
+  · rw [if_pos c1] at h; cases h
+  · rw [if_neg c1] at h
+    by_cases c2 : (b.ts == 0) = true
+    · rw [if_pos c2] at h; cases h
+    · intro e; exact c2 (by simp [e])
 
 theorem loopCheck_fact {env : Env} {cfg : Cfg} {now : Int} {lastHost : List Block} {nl : Ledger}
     {prev : Option Block} {b : Block} {i : Nat}
@@ -149,7 +160,7 @@ theorem loopCheck_fact {env : Env} {cfg : Cfg} {now : Int} {lastHost : List Bloc
       | none =>
         simp only [hx, if_true] at h
         obtain ⟨h1, h2, h3, h4⟩ := C04_verifyBlock_shape env cfg nl b p.ts now h
-        right; exact ⟨⟨h1, h3, h4⟩, h2⟩
+        right; exact ⟨⟨h1, h3, h4⟩, h2, verifyBlock_ts_ne_zero h⟩
       | some x =>
         simp only [hx] at h
         by_cases he : env.hash b = env.hash x
@@ -157,7 +168,7 @@ theorem loopCheck_fact {env : Env} {cfg : Cfg} {now : Int} {lastHost : List Bloc
         · have : (env.hash b != env.hash x) = true := by simpa using he
           rw [if_pos this] at h
           obtain ⟨h1, h2, h3, h4⟩ := C04_verifyBlock_shape env cfg nl b p.ts now h
-          right; exact ⟨⟨h1, h3, h4⟩, h2⟩
+          right; exact ⟨⟨h1, h3, h4⟩, h2, verifyBlock_ts_ne_zero h⟩
 
 theorem verifyLoop_facts {env : Env} {cfg : Cfg} {now : Int} {lastHost : List Block} :
     ∀ (bs : List Block) (nl : Ledger) (prev : Option Block) (i : Nat) (out : Ledger),
@@ -441,7 +452,7 @@ theorem adopted_not_future {env : Env} {cfg : Cfg} (hinj : Function.Injective en
           exact ⟨_, List.getLast?_eq_some_getLast this⟩
         · have hl := List.length_pos_iff.mpr hne
           exact ⟨nb[nb.length - 1 - 1]'(by omega), List.getElem?_eq_getElem (by omega)⟩
-      rcases hfact.2 p hp with ⟨x, hx, he⟩ | ⟨_, hle⟩
+      rcases hfact.2 p hp with ⟨x, hx, he⟩ | ⟨_, hle, _⟩
       · exfalso
         have hne' : n.led.blocks ≠ [] := by intro e'; rw [e'] at h2; simp at h2
         have htl : n.led.blocks.getLast? = some (n.led.blocks.getLast hne') := List.getLast?_eq_some_getLast hne'
@@ -472,13 +483,170 @@ theorem adopted_not_future {env : Env} {cfg : Cfg} (hinj : Function.Injective en
       have hp : (if nb.length - 1 = 0 then ([] : List Block).getLast? else nb[nb.length - 1 - 1]?) =
           some (nb[nb.length - 1 - 1]'(by omega)) := by
         rw [if_neg (by omega)]; exact List.getElem?_eq_getElem (by omega)
-      rcases hfact.2 _ hp with ⟨x, hx, _⟩ | ⟨_, hle⟩
+      rcases hfact.2 _ hp with ⟨x, hx, _⟩ | ⟨_, hle, _⟩
       · exfalso
         rw [List.getElem?_dropLast] at hx
         split at hx
         · rw [e] at hlen; omega
         · cases hx
       · exact hle
+
+end ShapeL
+/-- honest clock: no tick is dated 0 (a real clock never reads the epoch) -/
+def TickNonzero : Op → Prop
+  | .tick ts _ _ => ts ≠ 0
+  | _ => True
+
+/-- no block above the first is dated 0, and a one-block chain is not dated 0: `lastTs = 0` (what
+    `Validate` and the pool read as "no block yet") then holds of the empty chain only -/
+def TsOk (bs : List Block) : Prop :=
+  (∀ i b, bs[i]? = some b → 1 ≤ i → b.ts ≠ 0) ∧ (∀ b, bs = [b] → b.ts ≠ 0)
+
+namespace ShapeL
+
+theorem tsok_nil : TsOk [] := ⟨fun i b hb _ => (by cases hb), fun b e => (by cases e)⟩
+
+theorem shape_nil (cfg : Cfg) : Shape cfg [] := fun i a b ha _ => by cases ha
+
+theorem tsok_tip {bs : List Block} (h : TsOk bs) {a : Block} (ha : bs.getLast? = some a) : a.ts ≠ 0 := by
+  rw [List.getLast?_eq_getElem?] at ha
+  by_cases h1 : 1 ≤ bs.length - 1
+  · exact h.1 _ a ha h1
+  · have hlen : bs.length = 1 := by
+      have := (List.getElem?_eq_some_iff.mp ha).1; omega
+    match bs, hlen, ha with
+    | [b], _, ha => simp at ha; subst ha; exact h.2 b rfl
+
+/-- accepted blocks that have a predecessor and stand at chain height ≥ 1 are not dated 0: they passed
+    `verifyBlock` (zero guard) or are (injective hash) the host block at the same height -/
+theorem loopFacts_tsok {env : Env} {cfg : Cfg} {now : Int} {lastHost hb : List Block} {off : Nat}
+    (hinj : Function.Injective env.hash) (hts : TsOk hb)
+    (hoff : ∀ i x, lastHost[i]? = some x → hb[off + i]? = some x)
+    {bs : List Block} {prev : Option Block} (hf : loopFacts env cfg now lastHost prev bs 0)
+    {j : Nat} {b p : Block} (hb : bs[j]? = some b) (hp : (if j = 0 then prev else bs[j - 1]?) = some p)
+    (hpos : 1 ≤ off + j) : b.ts ≠ 0 := by
+  have hfact := loopFacts_get bs prev 0 hf j b hb
+  rcases hfact.2 p hp with ⟨x, hx, he⟩ | ⟨_, _, hnz⟩
+  · have : b = x := hinj he
+    subst this
+    rw [Nat.zero_add] at hx
+    exact hts.1 _ b (hoff j b hx) hpos
+  · exact hnz
+
+theorem tsok_phase1 {env : Env} {cfg : Cfg} {host : Ledger} {hb nb : List Block} {now : Int}
+    (hinj : Function.Injective env.hash) (hts : TsOk hb) (h2 : hb.length > 2)
+    (hv : Ledger.verify env cfg host hb.getLast?.toList nb hb.dropLast now = .ok nb) :
+    TsOk (hb.dropLast ++ nb) := by
+  have hf := verify_facts hv
+  have hne : nb ≠ [] := (SL.verify_ok hv).2.2.1
+  have hdl : hb.dropLast.length = hb.length - 1 := List.length_dropLast
+  refine ⟨?_, ?_⟩
+  · intro i b hb' hi
+    by_cases hlt : i < hb.dropLast.length
+    · rw [List.getElem?_append_left hlt] at hb'
+      exact hts.1 i b (dropLast_getElem? hb i b hb') hi
+    · rw [List.getElem?_append_right (by omega)] at hb'
+      have hp : ∃ p, (if i - hb.dropLast.length = 0 then hb.dropLast.getLast? else nb[i - hb.dropLast.length - 1]?) = some p := by
+        split
+        · have : hb.dropLast ≠ [] := by intro e; rw [e] at hdl; simp at hdl; omega
+          exact ⟨_, List.getLast?_eq_some_getLast this⟩
+        · have hl := (List.getElem?_eq_some_iff.mp hb').1
+          exact ⟨nb[i - hb.dropLast.length - 1]'(by omega), List.getElem?_eq_getElem (by omega)⟩
+      obtain ⟨p, hp⟩ := hp
+      exact loopFacts_tsok (off := hb.length - 1) hinj hts (tipList_getElem? hb) hf hb' hp (by omega)
+  · intro b e
+    have := congrArg List.length e
+    simp at this
+    have := List.length_pos_iff.mpr hne
+    omega
+
+theorem tsok_phase2 {env : Env} {cfg : Cfg} {host : Ledger} {hb nb : List Block} {now : Int}
+    (hinj : Function.Injective env.hash) (hts : TsOk hb)
+    (hv : Ledger.verify env cfg host hb.dropLast nb [] now = .ok nb) : TsOk nb := by
+  have hf := verify_facts hv
+  have hl2 : 2 ≤ nb.length := (SL.verify_ok hv).2.1 rfl
+  refine ⟨?_, ?_⟩
+  · intro i b hb' hi
+    have hl := (List.getElem?_eq_some_iff.mp hb').1
+    have hp : (if i = 0 then ([] : List Block).getLast? else nb[i - 1]?) = some (nb[i - 1]'(by omega)) := by
+      rw [if_neg (by omega)]; exact List.getElem?_eq_getElem (by omega)
+    exact loopFacts_tsok (off := 0) hinj hts
+      (fun i x hx => by rw [Nat.zero_add]; exact dropLast_getElem? hb i x hx) hf hb' hp (by omega)
+  · intro b e; rw [e] at hl2; simp at hl2
+
+theorem tsok_step {env : Env} {cfg : Cfg} (hinj : Function.Injective env.hash) {n : Node}
+    (hts : TsOk n.led.blocks) (op : Op) (hw : op.WF) (hnz : TickNonzero op) :
+    TsOk (Ru.step env cfg n op).led.blocks := by
+  have hstep := C12_step_prefix env cfg n op hw
+  cases op with
+  | submit tx => simp only at hstep; rw [hstep]; exact hts
+  | regsync newly => simp only at hstep; rw [hstep]; exact hts
+  | tick ts perm rewardId =>
+    simp only at hstep
+    rcases hstep with h | ⟨b, h, hbt⟩
+    · rw [h]; exact hts
+    · rw [h]
+      have hb0 : b.ts ≠ 0 := by rw [hbt]; exact hnz
+      refine ⟨?_, ?_⟩
+      · intro i c hc hi
+        by_cases hlt : i < n.led.blocks.length
+        · rw [List.getElem?_append_left hlt] at hc
+          exact hts.1 i c hc hi
+        · rw [List.getElem?_append_right (by omega)] at hc
+          cases hh : i - n.led.blocks.length with
+          | zero => rw [hh] at hc; simp at hc; subst hc; exact hb0
+          | succ m => rw [hh] at hc; simp at hc
+      · intro c e
+        have hl := congrArg List.length e
+        simp at hl
+        rw [hl] at e; simp at e; subst e; exact hb0
+  | sync now resps pick =>
+    simp only at hstep
+    rcases hstep with h | ⟨_, h2, nb, hv, hb⟩ | ⟨_, nb, hv, hb⟩
+    · rw [h]; exact hts
+    · rw [hb]; exact tsok_phase1 hinj hts h2 hv
+    · rw [hb]; exact tsok_phase2 hinj hts hv
+
+/-- both invariants along a history driven by an honest clock -/
+theorem shape_tsok_run {env : Env} {cfg : Cfg} (hmin : 1 ≤ cfg.minFee) (hinj : Function.Injective env.hash)
+    (hI : 0 ≤ cfg.interval) :
+    ∀ (ops : List Op) (n : Node), Reachable env cfg n → Shape cfg n.led.blocks → TsOk n.led.blocks →
+      (∀ o ∈ ops, o.WF) → Along env cfg (TickAligned cfg) n ops → (∀ o ∈ ops, TickNonzero o) →
+      Shape cfg (Ru.run env cfg n ops).led.blocks := by
+  intro ops
+  induction ops with
+  | nil => intro n _ hs _ _ _ _; simpa [Ru.run] using hs
+  | cons op rest ih =>
+    intro n hr hs hts hw ha hnz
+    have ho : op.WF := hw op (by simp)
+    have hz : TipNonzero n op := by
+      cases op with
+      | tick ts perm rid =>
+        intro hne
+        have := List.getLast?_eq_some_getLast hne
+        rw [lastTs_of_getLast this]
+        exact tsok_tip hts this
+      | submit _ => trivial
+      | sync _ _ _ => trivial
+      | regsync _ => trivial
+    have : Ru.run env cfg n (op :: rest) = Ru.run env cfg (Ru.step env cfg n op) rest := by simp [Ru.run]
+    rw [this]
+    exact ih _ (hr.next op ho) (shape_step hmin hinj hI hr hs op ho ha.1 hz)
+      (tsok_step hinj hts op ho (hnz op (by simp)))
+      (fun x hx => hw x (by simp [hx])) ha.2 (fun x hx => hnz x (by simp [hx]))
+
+theorem tsok_run {env : Env} {cfg : Cfg} (hinj : Function.Injective env.hash) :
+    ∀ (ops : List Op) (n : Node), TsOk n.led.blocks → (∀ o ∈ ops, o.WF) → (∀ o ∈ ops, TickNonzero o) →
+      TsOk (Ru.run env cfg n ops).led.blocks := by
+  intro ops
+  induction ops with
+  | nil => intro n h _ _; simpa [Ru.run] using h
+  | cons op rest ih =>
+    intro n hts hw hnz
+    have : Ru.run env cfg n (op :: rest) = Ru.run env cfg (Ru.step env cfg n op) rest := by simp [Ru.run]
+    rw [this]
+    exact ih _ (tsok_step hinj hts op (hw op (by simp)) (hnz op (by simp)))
+      (fun x hx => hw x (by simp [hx])) (fun x hx => hnz x (by simp [hx]))
 
 end ShapeL
 namespace ProgressL
